@@ -7,6 +7,8 @@ pub mod c06;
 pub mod c07;
 pub mod c08;
 pub mod c09;
+pub mod c10;
+pub mod c11;
 pub mod c12;
 pub mod c16;
 pub mod c17;
@@ -24,6 +26,8 @@ pub fn all() -> Vec<Box<dyn Property>> {
         Box::new(c07::C07),
         Box::new(c08::C08),
         Box::new(c09::C09),
+        Box::new(c10::C10),
+        Box::new(c11::C11),
         Box::new(c12::C12),
         Box::new(c16::C16),
         Box::new(c17::C17),
